@@ -228,6 +228,14 @@ func (s *Service) Update(ctx context.Context, id string, plugin string, data Con
 		return nil, err
 	}
 
+	// same rules as in Create, such a connector could not be created again
+	if err := s.validateConnector(data, id); err != nil {
+		return nil, cerrors.Errorf("connector is invalid: %w", err)
+	}
+	if plugin == "" {
+		return nil, cerrors.New("must provide a plugin")
+	}
+
 	if conn.Plugin != plugin {
 		s.logger.Warn(ctx).Msgf("connector plugin changing from %v to %v, "+
 			"this may lead to unexpected behavior and configuration issues.", conn.Plugin, plugin)
